@@ -387,6 +387,9 @@ func (g *G) stmt(depth int) []*N {
 	if len(g.makers) > 0 {
 		kinds = append(kinds, "mkdecl")
 	}
+	if g.p.Throw && g.p.Closures && g.p.ClosureBias > 1 && depth < g.p.MaxDepth && !f.isGen && f.inFinally == 0 && f.inHandler == 0 && f.noCalls == 0 {
+		kinds = append(kinds, "unwind", "unwind")
+	}
 	if g.p.ClosureBias > 1 && len(g.vars(TFn0, false)) > 0 {
 		kinds = append(kinds, "fnvar", "fnassign")
 	}
@@ -449,6 +452,8 @@ func (g *G) stmt(depth int) []*N {
 		// prefer the innermost closure (it captures the innermost variables)
 		src := vs[len(vs)-1-g.draw(len(vs), "fa")%len(vs)]
 		return []*N{{K: "assign", S: ws[g.draw(len(ws), "fw")].name, L: "=", C: []*N{{K: "var", S: src.name, T: TFn0}}}}
+	case "unwind":
+		return g.unwind()
 	case "mkdecl":
 		m := g.makers[g.draw(len(g.makers), "maker")]
 		call := &N{K: "call", S: m.S, T: m.T}
@@ -781,6 +786,60 @@ func (g *G) closure(depth int) []*N {
 			}
 		}
 	}
+	return out
+}
+
+// unwind: a closure over a variable of a frame (a closure call) or of a block (a do body) escapes through an
+// outer closure variable, then that frame / block is left by a throw that is caught further out, other values
+// are pushed where the frame was, and the escaped closure is used.
+func (g *G) unwind() []*N {
+	intLit := func(v int) *N { return &N{K: "int", I: int64(v), T: TInt} }
+	c0, h := g.fresh("c"), g.fresh("h")
+	out := []*N{
+		{K: "closure", S: c0, T: TFn0, B: [][]*N{{{K: "expr", C: []*N{intLit(0)}}}}},
+		{K: "decl", S: h, T: TFn0, C: []*N{{K: "var", S: c0, T: TFn0}}},
+	}
+	g.declare(vinfo{c0, TFn0, true})
+	g.declare(vinfo{h, TFn0, false})
+	w, g0 := g.fresh("v"), g.fresh("c")
+	sym := []string{"a", "b", "c"}[g.draw(3, "usym")]
+	// the part that runs inside the scope that will be unwound
+	core := func(cond *N) []*N {
+		return []*N{
+			{K: "decl", S: w, T: TInt, C: []*N{intLit(g.draw(9, "uw"))}},
+			{K: "closure", S: g0, T: TFn0, B: [][]*N{{
+				{K: "assign", S: w, L: "+=", C: []*N{intLit(1 + g.draw(3, "uinc"))}},
+				{K: "expr", C: []*N{{K: "var", S: w, T: TInt}}},
+			}}},
+			{K: "assign", S: h, L: "=", C: []*N{{K: "var", S: g0, T: TFn0}}},
+			{K: "throw", S: ":" + sym, C: []*N{cond}},
+		}
+	}
+	catch := &N{K: "csym", S: ":" + sym, C: []*N{{S: sym}}}
+	do := &N{K: "do", X: []*N{catch}}
+	if g.chance(2, "uframe") {
+		// frame of a closure call
+		k, p := g.fresh("c"), g.fresh("p")
+		body := core(&N{K: "bin", S: ">", T: TBool, C: []*N{{K: "var", S: p, T: TInt}, intLit(0)}})
+		body = append(body, &N{K: "expr", C: []*N{{K: "var", S: w, T: TInt}}})
+		out = append(out, &N{K: "closure", S: k, T: TFn1, X: []*N{{K: "param", S: p, T: TInt}}, B: [][]*N{body}})
+		g.declare(vinfo{k, TFn1, true})
+		do.B = [][]*N{{{K: "print", C: []*N{{K: "call", S: k, T: TInt, C: []*N{intLit(g.draw(3, "uarg"))}}}}}}
+	} else {
+		// block of the do body itself
+		vs := g.vars(TInt, false)
+		cond := &N{K: "bin", S: ">=", T: TBool, C: []*N{{K: "var", S: w, T: TInt}, intLit(g.draw(9, "ucmp"))}}
+		if len(vs) > 0 && g.chance(2, "uouter") {
+			cond.C[0] = &N{K: "var", S: vs[g.draw(len(vs), "uv")].name, T: TInt}
+		}
+		body := core(cond)
+		body = append(body, &N{K: "print", C: []*N{{K: "var", S: w, T: TInt}}})
+		do.B = [][]*N{body}
+	}
+	do.B = append(do.B, []*N{g.trace()})
+	out = append(out, do)
+	call := func() *N { return &N{K: "print", C: []*N{{K: "call", S: h, T: TInt}}} }
+	out = append(out, &N{K: "print", C: []*N{g.expr(TInt, 2)}}, call(), &N{K: "print", C: []*N{g.expr(TInt, 2)}}, call())
 	return out
 }
 
